@@ -4,7 +4,11 @@
 Go strings are byte sequences and the decoder indexes them by byte, so a message is a
 `List UInt8`. The model keeps the loop index `i`, `TokenStart`, and sends every Go slice
 expression through `slice?`, which yields `none` (→ outcome `panic`) when it would be out of
-range. Nothing is totalised silently: panic-freedom is the theorem `Props.C09.parse_total`.
+range (and the one index expression `message[startStr]` through `index?`). Nothing is totalised
+silently: panic-freedom is the theorem `Props.C09.parse_total`.
+
+The model mirrors `parselogical.go` WITH the repair of finding F4 (bit strings `B'1010'`: the `B` is
+dropped together with the quotes, see `valueTok?`).
 
 The loop body (`switch state.Current`) is `stepC`; `loop` is the `for i := 0; i <= len(message); i++`
 with the `i < TokenStart` jump; `finish` is the code after the loop; `parseGo` is one call of
@@ -70,6 +74,21 @@ deriving DecidableEq, Repr, Inhabited
 /-- Go slice expression `msg[a:b]`: run-time panic unless `a ≤ b ≤ len(msg)` -/
 def slice? (msg : Bytes) (a b : Nat) : Option Bytes :=
   if a ≤ b ∧ b ≤ msg.length then some ((msg.take b).drop a) else none
+
+/-- Go index expression `msg[i]`: run-time panic unless `i < len(msg)` -/
+def index? (msg : Bytes) (i : Nat) : Option UInt8 := msg[i]?
+
+/-- the cut of a column value (:224-238 of the repaired file): `startStr := TokenStart; endStr := i`;
+`if quoted { if message[startStr] == 'B' { startStr++ }; startStr++; endStr-- }`; `message[startStr:endStr]`.
+`none` = the index expression or the slice expression is out of range (run-time panic).
+(`endStr--` on `i = 0` gives `-1` in Go, a panic; here `0 - 1 = 0 < startStr`, also `none`.)
+Before the repair of F4 the `'B'` test was missing and `B'1010'` came out as `'1010`. -/
+def valueTok? (msg : Bytes) (quoted : Bool) (ts i : Nat) : Option Bytes :=
+  if quoted then
+    match index? msg ts with
+    | none => none
+    | some b => slice? msg ((if b = 66 then ts + 1 else ts) + 1) (i - 1)
+  else slice? msg ts i
 
 /-- `chr := byte('\000'); if i < len(message) { chr = message[i] }` (:145-153) -/
 def chrAt (msg : Bytes) (i : Nat) : UInt8 := msg.getD i 0
@@ -166,7 +185,7 @@ def stepC (msg : Bytes) (p : Bool) (i : Nat) (chr nxt : UInt8) (st : St) (res : 
   | .colValue =>                                                                          -- :222
     if chr = 0 ∨ chr = 32 then
       let quoted : Bool := st.prev = .colQuoted
-      match slice? msg (if quoted then st.tokenStart + 1 else st.tokenStart) (if quoted then i - 1 else i) with
+      match valueTok? msg quoted st.tokenStart i with
       | none => .done .panic
       | some tok =>
         let res' := addCol res st.oldKey st.curName { value := unescapeQuotes tok, type := st.curType, quoted := quoted }
